@@ -11,6 +11,8 @@ from sa.guards import GuardView, atom_of, names_in
 from sa.index import own_nodes
 from sa.report import Ctx
 
+from .common import generic_sweeps
+
 EXPLANATION = (
     "Decides structural necessary conditions of the exact-cover contract on solvor/dlx.py: (O1) _cover and _uncover "
     "are structural inverses - opposite traversal directions at both loop levels, the relink set of one is the unlink "
@@ -229,6 +231,7 @@ def run(ctx: Ctx):
                     cut = "max_solutions and len(solutions) >= max_solutions"
                     ok = (ast.unparse(d.test) == cut and ast.unparse(d.orelse) == "Status.OPTIMAL" and ast.unparse(d.body) != "Status.OPTIMAL") or (ast.unparse(d.test) == f"not ({cut})" and ast.unparse(d.body) == "Status.OPTIMAL")
                 ctx.ob("C07-O6", "R2 BUDGET-EXIT", api, f"Result#{k} find_all OPTIMAL only when the max_solutions cut did not fire", ok, "", node=s.call)
+    generic_sweeps(ctx)
 
 
 # ---------------------------------------------------------------------------------------------
